@@ -1,4 +1,5 @@
 import QuiverModel.Core.Text.Doc
+import QuiverModel.Lemmas.Text.Escape
 /-
 C17 — Formatting is a fixpoint and preserves the program and its comments.
 Property theorems about M-Text (the layout engine of `pretty.rs` and the string re-escaping of
@@ -42,5 +43,152 @@ example : print (.mkGroup (.concat [.text ['a'], .line, .lineSuffix (.text ['/',
 /-- The flag computed by `pretty::group` is the one `forces_break` reports for the group. -/
 theorem forcesBreak_mkGroup (d : Doc) : forcesBreak (Doc.mkGroup d) = forcesBreak d := by
   simp [Doc.mkGroup, forcesBreak]
+
+/-! ## String re-escaping round trips
+
+`format.rs` re-renders every string literal from its decoded value; these theorems say that the
+parser reads the rendering back to exactly that value — for every value, no hypotheses. -/
+
+/-- **escape_single_roundtrip** (term position, `string_segments`): the escaped text followed by the
+    closing quote scans as one text segment equal to the value — in particular an escaped `{` never
+    opens a hole and an escaped quote never ends the literal. -/
+theorem escape_single_roundtrip (s rest : List Char) :
+    stringSegments (escapeSingle s ++ '"' :: rest) = .closed s rest := by
+  induction s with
+  | nil => simp [escapeSingle, stringSegments_cons]
+  | cons c s ih =>
+    simp only [escapeSingle]
+    by_cases h1 : c = '\\'
+    · subst h1; simp [stringSegments_cons, singleEscape, ih, SegResult.push]
+    by_cases h2 : c = '"'
+    · subst h2; simp [stringSegments_cons, singleEscape, ih, SegResult.push]
+    by_cases h3 : c = '{'
+    · subst h3; simp [stringSegments_cons, singleEscape, ih, SegResult.push]
+    by_cases h4 : c = '\n'
+    · subst h4; simp [stringSegments_cons, singleEscape, ih, SegResult.push]
+    by_cases h5 : c = '\r'
+    · subst h5; simp [stringSegments_cons, singleEscape, ih, SegResult.push]
+    by_cases h6 : c = '\t'
+    · subst h6; simp [stringSegments_cons, singleEscape, ih, SegResult.push]
+    simp [h1, h2, h3, h4, h5, h6, stringSegments_cons, ih, SegResult.push]
+
+theorem decodeSingleAux_escape (o : Nat) (s : List Char) :
+    decodeSingleAux o (escapeSingle s) = .ok s := by
+  induction s generalizing o with
+  | nil => simp [escapeSingle, decodeSingleAux]
+  | cons c s ih =>
+    simp only [escapeSingle]
+    by_cases h1 : c = '\\'
+    · subst h1; simp [decodeSingleAux_cons, singleEscape, ih, Except.map]
+    by_cases h2 : c = '"'
+    · subst h2; simp [decodeSingleAux_cons, singleEscape, ih, Except.map]
+    by_cases h3 : c = '{'
+    · subst h3; simp [decodeSingleAux_cons, singleEscape, ih, Except.map]
+    by_cases h4 : c = '\n'
+    · subst h4; simp [decodeSingleAux_cons, singleEscape, ih, Except.map]
+    by_cases h5 : c = '\r'
+    · subst h5; simp [decodeSingleAux_cons, singleEscape, ih, Except.map]
+    by_cases h6 : c = '\t'
+    · subst h6; simp [decodeSingleAux_cons, singleEscape, ih, Except.map]
+    simp [h1, h2, h3, h4, h5, h6, decodeSingleAux_cons, ih, Except.map]
+
+theorem scanCloseSingleAux_escape (idx : Nat) (s rest : List Char) :
+    scanCloseSingleAux idx (escapeSingle s ++ '"' :: rest) = some (idx + utf8Len (escapeSingle s)) := by
+  induction s generalizing idx with
+  | nil => simp [escapeSingle, scanCloseSingleAux_cons, utf8Len]
+  | cons c s ih =>
+    simp only [escapeSingle]
+    by_cases h1 : c = '\\'
+    · subst h1; simp [scanCloseSingleAux_cons, ih, utf8Len]; omega
+    by_cases h2 : c = '"'
+    · subst h2; simp [scanCloseSingleAux_cons, ih, utf8Len]; omega
+    by_cases h3 : c = '{'
+    · subst h3; simp [scanCloseSingleAux_cons, ih, utf8Len]; omega
+    by_cases h4 : c = '\n'
+    · subst h4; simp [scanCloseSingleAux_cons, ih, utf8Len]; omega
+    by_cases h5 : c = '\r'
+    · subst h5; simp [scanCloseSingleAux_cons, ih, utf8Len]; omega
+    by_cases h6 : c = '\t'
+    · subst h6; simp [scanCloseSingleAux_cons, ih, utf8Len]; omega
+    simp [h1, h2, h3, h4, h5, h6, scanCloseSingleAux_cons, ih, utf8Len]; omega
+
+/-- **escape_single_roundtrip** (pattern position, `single_line_string` + `parse_string_content`):
+    the scan for the closing quote stops exactly after the escaped text, and decoding it gives the
+    value. (String patterns — also `"""` ones — are printed in this form.) -/
+theorem escape_single_roundtrip_pattern (s rest : List Char) :
+    scanCloseSingle (escapeSingle s ++ '"' :: rest) = some (utf8Len (escapeSingle s)) ∧
+    decodeSingle (escapeSingle s) = .ok s := by
+  constructor
+  · simpa [scanCloseSingle] using scanCloseSingleAux_escape 0 s rest
+  · exact decodeSingleAux_escape 0 s
+
+example : escapeSingle ['a', '"', '{', '\n', '\\'] = "a\\\"\\{\\n\\\\".toList := by
+  simp [escapeSingle]
+
+/-- **The multi-line round trip** (since fix a7d7642, for EVERY value and every space margin): the
+    text the formatter puts between the `"""` delimiters is scanned to its end by the escape-aware
+    scan, and de-indenting + decoding it (term position, `process_multiline_segments`) gives back
+    exactly the value — including trailing spaces (`\s`), blank-line runs, `"""` inside the value,
+    tabs, carriage returns, backslashes and braces. -/
+theorem escape_multi_roundtrip (v margin rest : List Char) (hm : ∀ c ∈ margin, c = ' ') :
+    processMultilineSegments (renderedRaw margin (multilineLines v)) = .text v ∧
+    scanCloseMulti (renderedRaw margin (multilineLines v) ++ '"' :: '"' :: '"' :: rest) =
+      some (utf8Len (renderedRaw margin (multilineLines v))) := by
+  have hok : ∀ L ∈ multilineLines v, ∃ l ∈ splitNl v, L = protRec (escapeMultiText l) ∧ LineOk l L := by
+    intro L hL
+    rw [multilineLines_eq] at hL
+    simp only [List.mem_map] at hL
+    obtain ⟨l, hl, rfl⟩ := hL
+    exact ⟨l, hl, rfl, renderedLine_ok l (splitNl_lines_noNl v l hl)⟩
+  have hne : multilineLines v ≠ [] := by
+    rw [multilineLines_eq]; simpa using splitNl_ne_nil v
+  constructor
+  · unfold processMultilineSegments
+    rw [multilineDedent_rendered margin _ hm hne
+      (fun L hL => by obtain ⟨_, _, _, ok⟩ := hok L hL; exact ok.noNl)
+      (fun L hL => by obtain ⟨_, _, _, ok⟩ := hok L hL; exact ok.noCr)
+      (fun L hL => by obtain ⟨_, _, _, ok⟩ := hok L hL; exact ok.blank)]
+    simp only
+    rw [multilineLines_eq, processSegments_lines _ (splitNl_ne_nil v) (splitNl_lines_noNl v),
+      joinNl_splitNl]
+  · have hclean : EscClean (renderedRaw margin (multilineLines v)) := by
+      unfold renderedRaw
+      refine .char _ _ (by decide) (by decide) (EscClean.append (EscClean.joinNl _ ?_)
+        (.char _ _ (by decide) (by decide) (EscClean.spaces margin hm)))
+      intro x hx
+      simp only [List.mem_map] at hx
+      obtain ⟨L, hL, rfl⟩ := hx
+      obtain ⟨_, _, _, ok⟩ := hok L hL
+      unfold indentLine; split
+      · exact .nil
+      · exact (EscClean.spaces margin hm).append ok.clean
+    have := scanCloseMultiAux_clean _ hclean 0 rest
+    simpa [scanCloseMulti] using this
+
+example : renderedRaw [' ', ' '] (multilineLines ['a', ' ', '\n', '\n', '"'])
+    = "\n  a\\s\n\n  \\\"\n  ".toList := by
+  simp [renderedRaw, multilineLines, splitNl, escapeMultiText, protectTrailingSpaces, trailingSpaces,
+    indentLine, joinNl]
+
+/-- The content lines `expand_literals` writes for the placeholder line of literal 0 at a space
+    margin are exactly the lines of `renderedRaw`. -/
+theorem expandLine_placeholder (margin : List Char) (Ls : List (List Char))
+    (hm : ∀ c ∈ margin, c = ' ') :
+    expandLine [Ls] (margin ++ literalPlaceholder 0) = some (Ls.map (indentLine margin)) := by
+  have key : ∀ m : List Char, (∀ c ∈ m, c = ' ') →
+      (m ++ literalPlaceholder 0).takeWhile (· = ' ') = m ∧
+      (m ++ literalPlaceholder 0).dropWhile (· = ' ') = literalPlaceholder 0 := by
+    intro m
+    induction m with
+    | nil => intro _; simp [literalPlaceholder]
+    | cons c t ih =>
+      intro h
+      have hc := h c (by simp); subst hc
+      have := ih (fun x hx => h x (by simp [hx]))
+      simp [this.1, this.2]
+  obtain ⟨htw, hdw⟩ := key margin hm
+  unfold expandLine
+  simp only [htw, hdw]
+  simp [literalPlaceholder, natDigits, parseUsize, indentLine]
 
 end C17
